@@ -140,7 +140,7 @@ func cmdFn(args []string) {
 			continue
 		}
 		for _, f := range fns {
-			r := vc.VerifyFunc(p, f, spec)
+			r := vc.VerifyFunc(p, f, spec, nil)
 			results = append(results, r)
 		}
 	}
